@@ -41,7 +41,7 @@ def Static.DueAt (S : Static) (σ : SimSt) (t : SimTime) (c : Comp) : Prop :=
 /-- **the device-level tick equations**: `σ₀` is the state before the tick (before the master
 removes the served wakeups), `σ'` the state after it, `new` the observations made. -/
 structure TickEqs (S : Static) (orc : Oracle) (n : Nat) (σ₀ : SimSt) (t : SimTime)
-    (Root : Comp → Prop) (σ' : SimSt) (new : List Obs) : Prop where
+    (Root Due : Comp → Prop) (σ' : SimSt) (new : List Obs) : Prop where
   obs_eq : σ'.obs = σ₀.obs ++ new
   nodup : (new.map Obs.comp).Nodup
   dev : ∀ o ∈ new, o.time = t ∧ S.isDevice o.comp
@@ -57,8 +57,8 @@ structure TickEqs (S : Static) (orc : Oracle) (n : Nat) (σ₀ : SimSt) (t : Sim
     agetD σ'.count o.comp 0 = agetD σ₀.count o.comp 0 + 1 ∧
     (∀ P, alookup S.parent o.comp = some P →
       (∀ w, r.callAt = some w → alookup (σ'.sched P).wake o.comp = some w) ∧
-      (r.callAt = none → Root o.comp → alookup (σ'.sched P).wake o.comp = none) ∧
-      (r.callAt = none → ¬ Root o.comp →
+      (r.callAt = none → Due o.comp → alookup (σ'.sched P).wake o.comp = none) ∧
+      (r.callAt = none → ¬ Due o.comp →
         alookup (σ'.sched P).wake o.comp = alookup (σ₀.sched P).wake o.comp))
   /-- everything else is untouched -/
   frame : ∀ d, S.isDevice d → d ∉ new.map Obs.comp →
@@ -90,10 +90,11 @@ theorem SimSt.obsOf_append {st st' : SimSt} {new : List Obs} (h : st'.obs = st.o
 /-- **two ticks satisfying the same equations update the same devices** (induction along the
 acyclic device-level graph) -/
 theorem tickEqs_same_updates {S : Static} (hS : S.Valid) {orc : Oracle} {n : Nat}
-    (hrank : S.FlatRank n) (hS' : (S.flatten n).Valid) {σ₀ σ₀' σ' σ'' : SimSt} (hc : DevCorr S σ₀ σ₀')
-    {t : SimTime} {Root Root' : Comp → Prop} (hroot : ∀ d, S.isDevice d → (Root d ↔ Root' d))
-    {new new' : List Obs} (E : TickEqs S orc n σ₀ t Root σ' new)
-    (E' : TickEqs (S.flatten n) orc 2 σ₀' t Root' σ'' new') :
+    (hrank : S.FlatRank n) (hS' : (S.flatten n).Valid) {σ₀ σ₀' σ' σ'' : SimSt}
+    (hchg : ∀ d, S.isDevice d → stepChg orc σ₀ d = stepChg orc σ₀' d)
+    {t : SimTime} {Root Root' Due Due' : Comp → Prop} (hroot : ∀ d, S.isDevice d → (Root d ↔ Root' d))
+    {new new' : List Obs} (E : TickEqs S orc n σ₀ t Root Due σ' new)
+    (E' : TickEqs (S.flatten n) orc 2 σ₀' t Root' Due' σ'' new') :
     ∀ d, S.isDevice d → (d ∈ new.map Obs.comp ↔ d ∈ new'.map Obs.comp) := by
   obtain ⟨rank, hr⟩ := hrank
   have hdev' : ∀ x, (S.flatten n).isDevice x ↔ S.isDevice x := by
@@ -114,18 +115,19 @@ theorem tickEqs_same_updates {S : Static} (hS : S.Valid) {orc : Oracle} {n : Nat
         refine ⟨q, v, a₀, p₀, ?_, ?_, ?_⟩
         · rw [hS.flatten_flatInputs hS' hdm q]; exact hfi
         · exact (ih a₀ (by have := hr d q a₀ p₀ hdm hfi; omega) had).1 ha
-        · rw [← hc.stepChg_eq orc had]; exact hv
+        · rw [← hchg _ had]; exact hv
       · rintro ⟨q, v, a₀, p₀, hfi, ha, hv⟩
         rw [hS.flatten_flatInputs hS' hdm q] at hfi
         have had := Static.mem_devices_iff.1 (hS.flatInputs_device hfi)
         refine ⟨q, v, a₀, p₀, hfi, ?_, ?_⟩
         · exact (ih a₀ (by have := hr d q a₀ p₀ hdm hfi; omega) had).2 ha
-        · rw [hc.stepChg_eq orc had]; exact hv
+        · rw [hchg _ had]; exact hv
   exact fun d hd => key (rank d + 1) d (Nat.lt_succ_self _) hd
 
 /-- the values given to a device are the same in both ticks -/
 theorem tickEqs_devIn_iff {S : Static} (hS : S.Valid) {orc : Oracle} {n : Nat}
-    (hS' : (S.flatten n).Valid) {σ₀ σ₀' : SimSt} (hc : DevCorr S σ₀ σ₀') {new new' : List Obs}
+    (hS' : (S.flatten n).Valid) {σ₀ σ₀' : SimSt}
+    (hchg : ∀ d, S.isDevice d → stepChg orc σ₀ d = stepChg orc σ₀' d) {new new' : List Obs}
     (hsame : ∀ d, S.isDevice d → (d ∈ new.map Obs.comp ↔ d ∈ new'.map Obs.comp))
     {d : Comp} (hd : S.isDevice d) (q : Port) (v : V) :
     S.DevIn orc n σ₀ new d q v ↔ (S.flatten n).DevIn orc 2 σ₀' new' d q v := by
@@ -135,21 +137,21 @@ theorem tickEqs_devIn_iff {S : Static} (hS : S.Valid) {orc : Oracle} {n : Nat}
     have had := Static.mem_devices_iff.1 (hS.flatInputs_device hfi)
     refine ⟨a₀, p₀, ?_, (hsame a₀ had).1 ha, ?_⟩
     · rw [hS.flatten_flatInputs hS' hdm q]; exact hfi
-    · rw [← hc.stepChg_eq orc had]; exact hv
+    · rw [← hchg _ had]; exact hv
   · rintro ⟨a₀, p₀, hfi, ha, hv⟩
     rw [hS.flatten_flatInputs hS' hdm q] at hfi
     have had := Static.mem_devices_iff.1 (hS.flatInputs_device hfi)
-    exact ⟨a₀, p₀, hfi, (hsame a₀ had).2 ha, by rw [hc.stepChg_eq orc had]; exact hv⟩
+    exact ⟨a₀, p₀, hfi, (hsame a₀ had).2 ha, by rw [hchg _ had]; exact hv⟩
 
 /-- **the correspondence is preserved** by a nested and a flat tick that satisfy the tick
 equations for corresponding root sets -/
 theorem corr_of_tickEqs {S : Static} (hS : S.Valid) {orc : Oracle} {n : Nat}
     (hrank : S.FlatRank n) (hS' : (S.flatten n).Valid) {σ₀ σ₀' σ' σ'' : SimSt} (hc : DevCorr S σ₀ σ₀')
     {t : SimTime} {Root Root' : Comp → Prop} (hroot : ∀ d, S.isDevice d → (Root d ↔ Root' d))
-    {new new' : List Obs} (E : TickEqs S orc n σ₀ t Root σ' new)
-    (E' : TickEqs (S.flatten n) orc 2 σ₀' t Root' σ'' new')
+    {new new' : List Obs} (E : TickEqs S orc n σ₀ t Root Root σ' new)
+    (E' : TickEqs (S.flatten n) orc 2 σ₀' t Root' Root' σ'' new')
     (hsch : SchedOK S σ') (hsch' : SchedOK (S.flatten n) σ'') : Corr S σ' σ'' := by
-  have hsame := tickEqs_same_updates hS hrank hS' hc hroot E E'
+  have hsame := tickEqs_same_updates hS hrank hS' (fun d hd => hc.stepChg_eq orc hd) hroot E E'
   have hdev' : ∀ x, (S.flatten n).isDevice x ↔ S.isDevice x := by
     intro x
     rw [← Static.mem_devices_iff, ← Static.mem_devices_iff, S.flatten_devices_eq]
@@ -179,7 +181,7 @@ theorem corr_of_tickEqs {S : Static} (hS : S.Valid) {orc : Oracle} {n : Nat}
       apply option_ext_some
       intro v
       rw [hiv q v, hiv' q v]
-      exact tickEqs_devIn_iff hS hS' hc hsame hd q v
+      exact tickEqs_devIn_iff hS hS' (fun d hd => hc.stepChg_eq orc hd) hsame hd q v
     have hmo : MapEq o.inputs o'.inputs := by
       rw [hin, hin']
       exact Det.mapEq_aupdate (hc.devs _ hd).2 hn hn' hmi
